@@ -43,6 +43,17 @@ export VERIF_REPO=$REPO VERIF_BIN=$BIN
 build_mc() {
   go build "${MODARGS[@]}" -tags verif -overlay "$OVERLAY" -o "$BIN/mc" ./cmd/mc || { echo "HARNESS-ERROR: harness build (hook variant) failed"; exit 2; }
 }
+# Third build, used by C11 only: as "mc", and in addition src/analyzer's import of package sync is redirected (in a
+# scratch copy of that one file, made from the current tree at every run) to hooks/verifsync, a cooperative stand-in
+# whose operations are scheduling points of the controlled scheduler. Returns non-zero when the tree does not build
+# this way (C11 then runs on the plain build and reports the sync-seam phase as not explored).
+build_sched() {
+  mkdir -p "$BIN/gen"
+  sed 's#^\t"sync"$#\tsync "github.com/a14e/gogreement/src/verifsync"#' "$REPO/src/analyzer/analyzer.go" > "$BIN/gen/analyzer.go"
+  sed 's#^\t"sync"$#\tsync "github.com/a14e/gogreement/src/verifsync"#' "$ROOT/hooks/analyzer/zz_verif_reset.go" > "$BIN/gen/zz_verif_reset.go"
+  echo "{\"Replace\": {\"$REPO/src/analyzer/zz_verif_reset.go\": \"$BIN/gen/zz_verif_reset.go\", \"$REPO/src/analyzer/analyzer.go\": \"$BIN/gen/analyzer.go\", \"$REPO/src/verifsync/sync.go\": \"$ROOT/hooks/verifsync/sync.go\"$SKIP}}" > "$BIN/overlay-sched.json"
+  go build "${MODARGS[@]}" -tags "verif verifsync" -overlay "$BIN/overlay-sched.json" -o "$BIN/mc-sched" ./cmd/mc 2> "$BIN/mc-sched.build.log"
+}
 build_plain() {
   if [ -n "$SKIP" ]; then
     go build "${MODARGS[@]}" -overlay "$OVERLAY" -o "$BIN/mc-plain" ./cmd/mc || { echo "HARNESS-ERROR: harness build failed"; exit 2; }
@@ -55,7 +66,7 @@ build_tool() {
 }
 case "${1:-}" in
   build)
-    build_mc; build_plain; build_tool; exit 0;;
+    build_mc; build_plain; build_tool; build_sched || echo "note: sync-shim build not available for this tree (see $BIN/mc-sched.build.log)"; exit 0;;
   replay)
     python3 - "$2" <<'PY'
 import json,sys
@@ -68,5 +79,8 @@ PY
 esac
 case "${1:-}" in
   C08|C09|C10) build_mc; exec "$BIN/mc" "$@";;
+  C11) if build_sched; then exec "$BIN/mc-sched" "$@"; fi
+       echo "note: sync-shim build failed for this tree; C11 runs on the plain build" >&2
+       build_plain; exec "$BIN/mc-plain" "$@";;
   *) build_plain; exec "$BIN/mc-plain" "$@";;
 esac
